@@ -185,6 +185,9 @@ class TaskScheduler(object):
 
     def _continue_with_task(self, task):
         task._resume_contexts()
+        if task.is_computed():
+            # A context failed to resume: that error has completed the task.
+            return 0
         old_task = self.active_task
         self.active_task = task
 
